@@ -938,10 +938,10 @@ class FnTr:
             au = kw.get("assume_unique")
             if au is not None and not (isinstance(au, ast.Constant) and isinstance(au.value, bool)):
                 raise Untranslatable(f"{self.spec.lean}: `{ast.unparse(e)}`: assume_unique must be a literal")
-            s1, a, ta = self.tr(args[0]); s2, b, tb = self.tr(args[1])
-            if ta == ("List", "Int") and tb == ("List", "Int"):
-                fn = "Py.setdiff1dAU" if (au is not None and au.value) else "Py.setdiff1d"
-                return s1 + s2, f"({fn} {a} {b})", ("List", "Int")
+            if au is None or not au.value:      # with assume_unique=True: see the Option-valued `Py.setdiff1dUnique` below
+                s1, a, ta = self.tr(args[0]); s2, b, tb = self.tr(args[1])
+                if ta == ("List", "Int") and tb == ("List", "Int"):
+                    return s1 + s2, f"(Py.setdiff1d {a} {b})", ("List", "Int")
         if f == "np.cumsum" and len(args) == 1:
             s0, c, t = self.tr(args[0])
             if t == ("List", "Int"):
